@@ -64,6 +64,7 @@ func runTrace(pd *propDef, s *scenario, trace []string, judge bool) (st mc.Step,
 		last := i == len(trace)-1
 		if last {
 			pre = x.snapshot()
+			x.preSnap = pre
 			st.ParentKey = pre.key()
 			x.log = nil
 		}
@@ -204,3 +205,7 @@ var propC04 = &propDef{id: "C04", oracles: []oracleFn{oracleC04}, scenarios: c04
 	nontriv: func(x *exec, post *snap) bool { return len(post.MemReqs) >= 2 }}
 
 func TestVerifC04(t *testing.T) { runProp(t, propC04) }
+
+var propC12 = &propDef{id: "C12", oracles: []oracleFn{oracleC12}, scenarios: c12Scenarios}
+
+func TestVerifC12(t *testing.T) { runProp(t, propC12) }
